@@ -959,11 +959,8 @@ func (fr *Frame) candidates(l *Loop, phiVals map[*ssa.Phi]Val, st *State) []cand
 		env0.old = ex.entry
 		rows := map[string][]string{}
 		for i, m := range ex.fc.Modifies {
-			if _, ok := m.(*EStarAll); !ok {
-				continue
-			}
 			for _, ml := range fr.evalModLocs(env0, m, ex.fc, i) {
-				if strings.HasPrefix(ml.Key, "E.") && len(ml.Idx) == 1 {
+				if !ml.Whole && len(ml.Idx) == 1 && ex.hsort[ml.Key].isArray() {
 					rows[ml.Key] = append(rows[ml.Key], ml.Idx[0])
 				}
 			}
